@@ -158,4 +158,6 @@ RequiredRefs(tree) ==
     [] tree.t = "map"  -> UNION {RequiredRefs(tree.kids[k]) : k \in DOMAIN tree.kids}
     [] tree.t = "list" -> UNION {RequiredRefs(tree.kids[i]) : i \in DOMAIN tree.kids}
     [] OTHER -> {}
+\* inferred schema of a map-valued field: a key is optional exactly when its value carries an optional tag
+RequiredKeys(tree) == IF tree.t = "map" THEN {k \in DOMAIN tree.kids : tree.kids[k].t # "opt"} ELSE {}
 =============================================================================
